@@ -317,7 +317,7 @@ fn fix_indices(vs: &mut Vec<VariantD>) {
 
 pub fn def(idx: usize, prev: Vec<Def>, o: DefOpts) -> BoxedStrategy<Def> {
     let o2 = o.clone();
-    (0u8..3, prop::bool::weighted(0.12), any::<u16>(), any::<bool>())
+    (prop_oneof![6 => 0u8..3, 1 => 3u8..5], prop::bool::weighted(0.12), any::<u16>(), any::<bool>())
         .prop_flat_map(move |(n_params, lifetime, salt, is_enum)| {
             let o = o2.clone();
             let prev = prev.clone();
